@@ -18,9 +18,24 @@ def build(tier, ctx):
                                    stretched=(4, 10) if tier == "quick"
                                    else (5, 10))
     defs += pvcommon.skeleton_defs(tier)
-    return [{"name": nm, "defn": dsl.to_list(d), "k": 2,
-             "pres": ["canonical"], "mode": "c02"}
-            for nm, d in defs]
+    tasks = [{"name": nm, "defn": dsl.to_list(d), "k": 2,
+              "pres": ["canonical"], "mode": "c02"}
+             for nm, d in defs]
+    # the families beyond the size bound again under the reversed hash-rank
+    # order of created objects (walk order of the break XORs depends on it)
+    ext = [(nm, d) for nm, d in defs if nm in ("FT", "FS", "FD", "FL", "FK")]
+    tasks += [{"name": nm, "defn": dsl.to_list(d), "k": 2,
+               "pres": ["canonical"], "mode": "c02", "pi": "rev"}
+              for nm, d in ext]
+    # ... and in worker processes with other string-hash seeds
+    tasks += [{"name": nm, "defn": dsl.to_list(d), "k": 2,
+               "pres": ["canonical"], "mode": "c02", "seed": hs}
+              for hs in (1, 2, 3) for nm, d in ext]
+    return tasks
+
+
+def seed_of(task):
+    return task.get("seed", 0)
 
 
 def collect(tier, tasks, results, ctx):
@@ -32,7 +47,9 @@ def collect(tier, tasks, results, ctx):
               "definitions": ("F_5" if tier == "quick" else "F_7") +
               " + 63 corpus + staged merges + kill-in-loop + lead-loop + "
               "loop-on-break-path + skeletons (counts: tasks_per_family)",
-              "input": "complete J_2(D), canonical presentation",
+              "input": "complete J_2(D), canonical presentation; the "
+              "families beyond the size bound also under the reversed "
+              "hash-rank order and in processes with PYTHONHASHSEED 1..3",
               "output_language": "every job of the emitted diagram with "
               "loops bounded at 2, cap %d jobs per definition"
               % pvsweep.C02_CAP}
